@@ -100,13 +100,60 @@ def kani_target(g):
     return os.path.join(BUILD, "kani_" + g.key)
 
 
+GEN = os.path.join(BUILD, "gen")
+_templates_done = False
+_templates_lock = threading.Lock()
+
+
+TEMPLATE_FAILS = []  # [(shape name, message)] of this run
+
+
+def ensure_log_templates():
+    """T of DESIGN.md 3/C12: derive the log byte-image templates natively from the real writer
+    (from /repo's current tree) and store them where the sst harness module includes them.
+    A shape whose derivation fails (the writer panics, or its output is not explained by
+    layout + payload + checksums) gets placeholder constants so that everything else still
+    compiles, and is reported through TEMPLATE_FAILS."""
+    global _templates_done
+    with _templates_lock:
+        if _templates_done:
+            return None
+        os.makedirs(GEN, exist_ok=True)
+        path = os.path.join(GEN, "log_templates.rs")
+        env = dict(ENV, RUSTFLAGS="--cfg rescrv_blue_verif", VERIF_TEMPLATE="1")
+        cmd = ["cargo", "test", "-p", "sst", "--lib", "--target-dir", os.path.join(BUILD, "native_sst"),
+               "log::verif_harness::verif_template", "--", "--nocapture", "--test-threads", "1"]
+        out, rc, to, dt = run_proc(cmd, REPO, 1800, 24, env=env)
+        m = re.search(r"TEMPLATE-BEGIN\n(.*?)TEMPLATE-END", out, re.S)
+        _templates_done = True
+        if rc == 0 and m:
+            lines = m.group(1).splitlines()
+            body = "\n".join(l for l in lines if l.startswith("pub const") or l.startswith("// TEMPLATE-FAIL"))
+            for l in lines:
+                mm = re.match(r"// TEMPLATE-FAIL (\S+) (.*)", l)
+                if mm:
+                    TEMPLATE_FAILS.append((mm.group(1), mm.group(2)))
+            new = "// generated on every run by vlib/runner.py from the real log writer\n" + body + "\n"
+            if not os.path.exists(path) or open(path).read() != new:
+                open(path, "w").write(new)
+            return None
+        names = re.findall(r'\("([A-Z0-9_]+)", \d+, \d+, \d+, \d\)', open(os.path.join(VERIF, "hk/sst/log.rs")).read())
+        body = "".join(f"pub const T_{n}_LEN: usize = 1;\npub const T_{n}_LAYOUT: [u8; 1] = [0];\npub const T_{n}_KIND: [u8; 1] = [0];\npub const T_{n}_CRCS: [(usize, usize); 0] = [];\n" for n in names)
+        open(path, "w").write("// FALLBACK: template derivation failed\n" + body)
+        open(os.path.join(GEN, "log_templates.err"), "w").write(out[-6000:])
+        return "log template derivation failed (see build/gen/log_templates.err)"
+
+
 def prepare_group(g):
     if g.kind == "ext":
         # same dependency resolution as /repo
         shutil.copyfile(os.path.join(REPO, "Cargo.lock"), os.path.join(g.path, "Cargo.lock"))
+    if g.key in ("sst", "lsmtk", "hx_sst_cursors"):
+        return ensure_log_templates()
+    return None
 
 
-def kani_cmd(h, g, bounds, glob, playback=False, cap=None, codegen_only=False):
+def kani_cmd(h, g, bounds, glob, playback=False, cap=None, codegen_only=False, partial=False):
     cmd = ["cargo", "kani"]
     if g.kind == "incrate":
         cmd += ["-p", g.package]
@@ -120,6 +167,11 @@ def kani_cmd(h, g, bounds, glob, playback=False, cap=None, codegen_only=False):
     if playback:
         cmd += ["-Z", "concrete-playback", "--concrete-playback=print"]
     cmd += ["--cbmc-args", "--unwind", str(glob)]
+    if partial:
+        # bound-discovery rounds only: keep executing past a too-short loop so that EVERY loop
+        # whose bound is too small shows its unwinding assertion in one run (verdicts of such a
+        # run are ignored; the deciding run is always strict)
+        cmd += ["--partial-loops"]
     if bounds:
         cmd += ["--unwindset", ",".join(f"{k}:{v}" for k, v in sorted(bounds.items()))]
     return cmd
@@ -240,16 +292,18 @@ def to_mangled(bounds, inv):
 
 
 def grow(cur):
-    return max(16, cur * 4) if cur < 64 else cur * 2
+    # doubling: over-unrolling a loop with a concrete trip count is free, but a loop whose
+    # trip count is symbolic pays for every extra iteration in the final query
+    return max(cur + 3, cur * 2)
 
 
-def run_harness(h, g, hints, logdir, max_rounds=16):
+def run_harness(h, g, hints, logdir, max_rounds=40):
     r = Result(h)
     hint = hints.get(h.name, {})
     bounds = dict(hint.get("unwindset", {}))
     glob = max(h.unwind, hint.get("unwind", h.unwind))
     t0 = time.time()
-    budget = h.cap * 3 + 240
+    budget = h.cap * 4 + 600
     base = os.path.join(logdir, h.name.replace("/", "__"))
     # compile first: build errors surface here, and the name map of this build is needed
     out, rc, to, dt = run_proc(kani_cmd(h, g, {}, glob, codegen_only=True), group_cwd(g), 1800, 24)
@@ -260,8 +314,10 @@ def run_harness(h, g, hints, logdir, max_rounds=16):
         r.wall = time.time() - t0
         r.bounds, r.glob = bounds, glob
         return r
+    partial = False
+    partial_rounds = 0
     for rnd in range(max_rounds):
-        cmd = kani_cmd(h, g, to_mangled(bounds, inv), glob)
+        cmd = kani_cmd(h, g, to_mangled(bounds, inv), glob, partial=partial)
         out, rc, to, dt = run_proc(cmd, group_cwd(g), h.cap + 600, h.mem)
         r.queries += 1
         r.rounds = rnd + 1
@@ -272,7 +328,21 @@ def run_harness(h, g, hints, logdir, max_rounds=16):
         r.parsed = p
         r.solver_s += p["solver_s"]
         r.symex_s += p["symex_s"]
+        if p["verdict"] is None and re.search(r"goto-cc exited|read_bin_goto_object|goto-instrument exited", out) and not getattr(r, "rebuilt", False):
+            # a cached goto binary is unreadable (e.g. an earlier run was killed while writing it):
+            # drop this harness's build directory and build again
+            r.rebuilt = True
+            if nmf:
+                shutil.rmtree(os.path.dirname(os.path.dirname(nmf)), ignore_errors=True)
+            out2, rc2, to2, dt2 = run_proc(kani_cmd(h, g, {}, glob, codegen_only=True), group_cwd(g), 1800, 24)
+            inv, nmf = find_name_map(g, h)
+            continue
         if p["verdict"] is None:
+            if partial:
+                # the discovery mode itself failed: go on strictly
+                partial = False
+                partial_rounds = 99
+                continue
             r.status = "INCONCLUSIVE"
             if p["compile_error"]:
                 r.reason = "build failed (see %s)" % logp
@@ -308,6 +378,14 @@ def run_harness(h, g, hints, logdir, max_rounds=16):
                 r.status = "INCONCLUSIVE"
                 r.reason = "unwind derivation exceeded budget"
                 break
+            if partial:
+                partial_rounds += 1
+            partial = partial_rounds < 10
+            continue
+        if partial:
+            # no loop is too short any more under discovery: now the strict, deciding run
+            partial = False
+            partial_rounds = 99
             continue
         # converged: no unwinding assertion fails
         r.failed = [c for c in p["checks"] if c["status"] == "FAILURE"]
@@ -507,8 +585,7 @@ def check_property(pid, prop, groups, tier, seed, jobs, update_hints=False, only
         import spec as _spec
         pre_problem = getattr(_spec, prop["pre"])()
     used_groups = {h.group for h in hs}
-    for gk in used_groups:
-        prepare_group(groups[gk])
+    prep_problems = [x for x in (prepare_group(groups[gk]) for gk in used_groups) if x]
     results = []
     # warm the build once per group so parallel jobs do not all wait on the cargo lock
     with cf.ThreadPoolExecutor(max_workers=jobs) as ex:
@@ -522,8 +599,40 @@ def check_property(pid, prop, groups, tier, seed, jobs, update_hints=False, only
     results.sort(key=lambda r: r.h.name)
 
     violations, known_hits, inconcl = [], [], []
-    if pre_problem:
+    if isinstance(pre_problem, tuple) and pre_problem[0] == "violation":
+        _, hh, msg = pre_problem
+        c = dict(n=0, id="native." + hh.replay, status="FAILURE", desc="native anchored differential failed", loc="native run")
+        rp = os.path.join(VERIF, "replays", pid)
+        os.makedirs(rp, exist_ok=True)
+        tp = os.path.join(rp, hh.name.replace("/", "__") + ".tape")
+        open(tp, "w").write(json.dumps(dict(property=pid, harness=hh.name, replay=hh.replay, group=hh.group, tape="00", check=c,
+                                            native_profile="dev", native_message=msg), indent=1) + "\n")
+        prop["harnesses"].append(hh)  # so that --replay finds it
+        violations.append((hh, c, tp, msg))
+    elif pre_problem:
         inconcl.append(("pre-check", pre_problem))
+    if prop.get("needs_templates"):
+        for x in prep_problems:
+            inconcl.append(("templates", x))
+        # shapes the real writer could not be observed on: replay the base payload natively
+        for shape, msg in TEMPLATE_FAILS:
+            hh = next((h for h in prop["harnesses"] if h.name.endswith("/w_" + shape.lower())), None)
+            if hh is None:
+                continue
+            tape = bytes(0x11 + i for i in range(16))
+            rep = native_replay(hh, groups[hh.group], tape)
+            c = dict(n=0, id="template." + shape, status="FAILURE", desc="the writer's output for shape %s cannot be observed: %s" % (shape, msg), loc="native template derivation")
+            if rep["panicked"]:
+                rp = os.path.join(VERIF, "replays", pid)
+                os.makedirs(rp, exist_ok=True)
+                tp = os.path.join(rp, hh.name.replace("/", "__") + ".tape")
+                open(tp, "w").write(json.dumps(dict(property=pid, harness=hh.name, replay=hh.replay, group=hh.group, tape=tape.hex(), check=c,
+                                                    native_profile="dev", native_message=rep["msg"]), indent=1) + "\n")
+                violations.append((hh, c, tp, rep["msg"]))
+            else:
+                inconcl.append((hh.name, "template derivation failed for shape %s (%s) but the native round trip of the base payload passes" % (shape, msg)))
+        failed_shapes = {x[0].lower() for x in TEMPLATE_FAILS}
+        results = [r for r in results if not any(r.h.name.endswith("_" + fs) or ("_" + fs + "_") in r.h.name for fs in failed_shapes)]
     for r in results:
         h, g = r.h, groups[r.h.group]
         if r.status == "INCONCLUSIVE":
@@ -712,7 +821,7 @@ def write_evidence(pid, prop, tier, seed, results, violations, known_hits, incon
 def replay_file(path, groups, props):
     d = json.load(open(path))
     pid = d["property"]
-    h = next(h for h in props[pid]["harnesses"] if h.name == d["harness"])
+    h = next(h for h in props[pid]["harnesses"] + props[pid].get("native_only", []) if h.name == d["harness"])
     g = groups[h.group]
     prepare_group(g)
     tape = bytes.fromhex(d["tape"])
